@@ -352,7 +352,7 @@ def execute_strace(sc, inject=None):
         before = snapshot(cwd)
         argv, stdin = command_line(sc, root)
         trace = os.path.join(root, "trace.txt")
-        cmd = ["strace", "-f", "-qq", "-o", trace, "-s", "256",
+        cmd = ["strace", "-f", "-qq", "-o", trace, "-s", "2000000",
                "-e", "trace=%file,write,pwrite64,writev,ftruncate,fchmod,fchown,close,fsync,fdatasync,dup,dup2,dup3"]
         if inject:
             cmd += ["-e", "inject=" + inject]
